@@ -576,7 +576,7 @@ def _pred(case, stats):
             if payload_malformed and not whole_failed:
                 sig = 'malformed-request-altered-tags:service-payload:' + payload_malformed[0].get('why', 'other')
             elif any(op is not None and op.get('malformed') and op.get('svc') is None for op in ops):
-                sig = 'malformed-request-altered-tags:member:' + [op['why'] for op in ops if op is not None and op.get('malformed') and op.get('svc') is None][0]
+                sig = 'malformed-request-altered-tags:' + [op['why'] for op in ops if op is not None and op.get('malformed') and op.get('svc') is None][0]
             else:
                 sig = 'wellformed-request-wrong-effect'
             stats.fail('stream', sig, case,
